@@ -70,4 +70,19 @@ theorem luLinear_fwd_eq (lg : K → L) (Lo : Fin n → Fin n → K) (ud : Fin n 
   rw [triUpper_fwd_eq]
   simp
 
+/-- the cached evaluation path: `luLinear` applies the product matrix `W = lower @ upper` -/
+theorem luLinear_fwd_eq_cached (lg : K → L) (Lo : Fin n → Fin n → K) (ud : Fin n → K) (Up : Fin n → Fin n → K)
+    (b x : Fin n → K) (i : Fin n) :
+    ((luLinear lg Lo ud Up b).fwd x).1 i
+      = (∑ k, (∑ j, lowerMat (fun _ => 1) Lo i j * upperMat ud Up j k) * x k) + b i := by
+  rw [luLinear_fwd_eq]
+  congr 1
+  simp only [Finset.mul_sum, Finset.sum_mul]
+  rw [Finset.sum_comm]
+  apply Finset.sum_congr rfl
+  intro k _
+  apply Finset.sum_congr rfl
+  intro j _
+  ring
+
 end NessaiVerif.Flow
